@@ -54,6 +54,7 @@ Record Inv (m : Z) (d : bool) (vf : valfn) (ps0 : list prog) (c : config) : Prop
   i_src : forall x, In x (pushed c) ->
           match q_src x with Some (j, _) => j < length ps0 | None => q_text x = [] end;
   i_fifo : pushed c = wrote c ++ inflight (cons c) ++ dropped c ++ queue c;
+  i_obuf : obuf c = [];
   i_file : map snd (file c) = map (line_of d) (wrote c) /\ map fst (file c) = nums d 0 0 (wrote c)
            /\ seqno c = cnt d true (wrote c) /\ oseqno c = cnt d false (wrote c);
   i_text : (forall x, In x (wrote c ++ inflight (cons c)) -> q_text x <> []) /\
@@ -136,8 +137,8 @@ Proof.
   - (* pushed *)
     cbn [enqueue try_push]. rewrite (proj2 (i_cfg _ _ _ _ _ HI)).
     set (x := {| q_src := Some (i, pidx st); q_text := txt; q_val := vf i (pidx st) |}).
-    destruct HI as [Hm Hcfg Hpr Hsrc Hfifo Hfile Htext Hex Hdn Hnd].
-    constructor; cbn [mask dirflag valf prods queue stopping cons seqno oseqno file stopper pushed wrote dropped].
+    destruct HI as [Hm Hcfg Hpr Hsrc Hfifo Hob Hfile Htext Hex Hdn Hnd].
+    constructor; cbn [mask dirflag valf prods queue stopping cons seqno oseqno file obuf stopper pushed wrote dropped].
     + reflexivity.
     + destruct Hcfg; split; [assumption|reflexivity].
     + intros j. destruct (Nat.eq_dec i j) as [<-|Hij].
@@ -155,6 +156,7 @@ Proof.
     + intros y Hy. apply in_app_or in Hy. destruct Hy as [Hy|[<-|[]]]; [apply Hsrc; assumption|].
       cbn. exact Hilt.
     + rewrite Hfifo. rewrite <- !app_assoc. reflexivity.
+    + exact Hob.
     + exact Hfile.
     + exact Htext.
     + exact Hex.
@@ -176,8 +178,8 @@ Proof.
            apply Hfresh. left. symmetry. exact H.
         -- apply IH; [assumption|]. intro H. apply Hfresh. right. exact H.
   - (* level disabled: nothing pushed, result true *)
-    destruct HI as [Hm Hcfg Hpr Hsrc Hfifo Hfile Htext Hex Hdn Hnd].
-    constructor; cbn [mask dirflag valf prods queue stopping cons seqno oseqno file stopper pushed wrote dropped]; auto.
+    destruct HI as [Hm Hcfg Hpr Hsrc Hfifo Hob Hfile Htext Hex Hdn Hnd].
+    constructor; cbn [mask dirflag valf prods queue stopping cons seqno oseqno file obuf stopper pushed wrote dropped]; auto.
     intros j. destruct (Nat.eq_dec i j) as [<-|Hij].
     + rewrite (upd_same _ _ _ _ _ Est), Ep. cbn.
       exists (done ++ [(lev, txt)]). cbn [todo pidx rets].
@@ -206,13 +208,13 @@ Qed.
 
 Ltac exit_goal Hd := let H := fresh in intros H; try reflexivity; try (rewrite Hd in H; contradiction H; reflexivity).
 Ltac done_goal Hdn := let H := fresh in intros H; try reflexivity; try (apply Hdn in H; discriminate).
-Ltac fields := cbn [set_cons mask dirflag valf prods queue stopping cons seqno oseqno file stopper pushed wrote dropped inflight].
+Ltac fields := cbn [set_cons mask dirflag valf prods queue stopping cons seqno oseqno file obuf stopper pushed wrote dropped inflight].
 
 Lemma Inv_step_cons : forall m d vf ps0 c, Inv m d vf ps0 c -> Inv m d vf ps0 (step_cons c).
 Proof.
   intros m d vf ps0 c HI. unfold step_cons.
   destruct (cons c) as [|s|x|] eqn:Ec; [| | |exact HI];
-    destruct HI as [Hm Hcfg Hpr Hsrc Hfifo Hfile Htext Hex Hdn Hnd]; rewrite Ec in *; cbn [inflight] in *;
+    destruct HI as [Hm Hcfg Hpr Hsrc Hfifo Hob Hfile Htext Hex Hdn Hnd]; rewrite Ec in *; cbn [inflight] in *;
     (assert (Hd : dropped c = []) by
       (destruct (dropped c); [reflexivity|];
        match type of Hex with _ -> ?k = CExit => assert (k = CExit) by (apply Hex; discriminate); discriminate end)).
@@ -242,8 +244,8 @@ Proof.
         -- done_goal Hdn.
   - (* CWrite x *)
     destruct Hfile as [Hf1 [Hf2 [Hf3 Hf4]]]. destruct Htext as [Ht1 Ht2]. destruct Hcfg as [Hcd Hcv].
-    rewrite Hcd. change (if d then negb (Z.eqb (q_val x) 0) else true) with (uses_seq d x).
-    constructor; fields; try assumption.
+    rewrite Hcd, Hob. cbn [app]. change (if d then negb (Z.eqb (q_val x) 0) else true) with (uses_seq d x).
+    constructor; fields; try assumption; try reflexivity.
     + split; [reflexivity|assumption].
     + rewrite Hfifo. rewrite <- !app_assoc. reflexivity.
     + rewrite !map_app, Hf1, Hf2, nums_snoc, !cnt_snoc, Hf3, Hf4. cbn [map snd fst Nat.add].
@@ -257,9 +259,9 @@ Lemma Inv_step_stop : forall m d vf ps0 c, Inv m d vf ps0 c -> Inv m d vf ps0 (s
 Proof.
   intros m d vf ps0 c HI. unfold step_stop.
   destruct (stopper c) eqn:Es.
-  - destruct HI as [Hm Hcfg Hpr Hsrc Hfifo Hfile Htext Hex Hdn Hnd].
+  - destruct HI as [Hm Hcfg Hpr Hsrc Hfifo Hob Hfile Htext Hex Hdn Hnd].
     constructor; fields; try assumption. discriminate.
-  - destruct HI as [Hm Hcfg Hpr Hsrc Hfifo Hfile Htext Hex Hdn Hnd]. cbn [enqueue try_push].
+  - destruct HI as [Hm Hcfg Hpr Hsrc Hfifo Hob Hfile Htext Hex Hdn Hnd]. cbn [enqueue try_push].
     constructor; fields; try assumption.
     + intros j. specialize (Hpr j). destruct (nth_error ps0 j), (nth_error (prods c) j); cbn in *; auto.
       eapply PInv_irrel; [|exact Hpr]. rewrite filter_snoc. cbn. rewrite app_nil_r. reflexivity.
@@ -268,7 +270,7 @@ Proof.
     + discriminate.
     + rewrite filter_snoc. cbn. rewrite app_nil_r. exact Hnd.
   - destruct (cons c) eqn:Ec; try exact HI.
-    destruct HI as [Hm Hcfg Hpr Hsrc Hfifo Hfile Htext Hex Hdn Hnd].
+    destruct HI as [Hm Hcfg Hpr Hsrc Hfifo Hob Hfile Htext Hex Hdn Hnd].
     rewrite Ec in *.
     constructor; fields; try assumption; intros; reflexivity.
   - exact HI.
